@@ -170,9 +170,12 @@ class E3Check(Check):
                     if rng.random() < 0.5:
                         # same time base -> associations succeed
                         objs[k]["ts_like"] = 0
-        return {"kind": "random", "mix": self.mix, "objects": objs,
+        case = {"kind": "random", "mix": self.mix, "objects": objs,
                 "steps": None, "step_seed": rng.getrandbits(32),
                 "nsteps": rng.randint(8, 24)}
+        if rng.random() < 0.2:
+            case["debug_log"] = True
+        return case
 
     # ------------------------------------------------------------ execution
     def execute(self, case) -> RunResult:
@@ -182,8 +185,23 @@ class E3Check(Check):
         if case.get("kind") == "text_precision":
             with contextlib.redirect_stdout(io.StringIO()):
                 return run_text_precision(evo, case, self)
-        with contextlib.redirect_stdout(io.StringIO()):  # evo progress prints
-            violation, steps, m = run_history(evo, case, self.prop)
+        import logging
+        lg, handler = logging.getLogger("evo"), None
+        if case.get("debug_log"):
+            # as with --logfile / -v / global_logfile_enabled: DEBUG records
+            # of evo's loggers are formatted (lazy %s arguments are str()ed,
+            # which may read - and cache - properties of the objects)
+            handler = logging.StreamHandler(io.StringIO())
+            handler.setLevel(logging.DEBUG)
+            lg.addHandler(handler)
+            lg.setLevel(logging.DEBUG)
+        try:
+            with contextlib.redirect_stdout(io.StringIO()):  # progress prints
+                violation, steps, m = run_history(evo, case, self.prop)
+        finally:
+            if handler is not None:
+                lg.removeHandler(handler)
+                lg.setLevel(logging.CRITICAL)
         res = RunResult()
         finals = []
         for uid, e in sorted(m.entries.items()):
